@@ -42,6 +42,9 @@ def fmt_term(t):
     return "%s of %s%s" % (tn, "/".join(map(str, r)), " (or the constant %s instead)" % "/".join(map(str, al)) if al else "")
 
 
+ENC_ANALYSIS = [("varintPFOREncode", "varintPFORComputeThreshold"), ("varintFOREncode", "varintFORAnalyze")]
+
+
 def len_atom_bits(a, ef=None):
     """bit width of the quantity a `len` atom measures, when it is a member of a local record (by position) or a named struct field
     (the widest load of a member of that name; not trusted when the encoder also has a parameter of that name)"""
@@ -49,6 +52,82 @@ def len_atom_bits(a, ef=None):
     if a[2].startswith("member/"): return int(a[2].split("/")[2])
     if "/" not in a[2] and a[2] in ST._FIELD_BITS and ef is not None and ef.param_index(a[2]) is None: return ST._FIELD_BITS[a[2]]
     return None
+
+
+def per_width(w, fn, mode):
+    """{k: bytes} for k = 1..8: with the width measured by the function's byte-width loop pinned to k, either the amount added to the
+    running size on one trip of that loop's enclosing loop (mode 'accumulate') or the value stored into the local width array
+    (mode 'store').  None where it is not a single constant."""
+    from .c12 import measured_values
+    from ..ival import Intervals
+    mvs = [m_ for m_ in measured_values(fn, w) if m_[1] is not None and m_[2].block.id in fn.loops()]
+    if len(mvs) != 1: raise AnalysisBroken("%s: expected one byte-width measurement, found %d" % (fn.name, len(mvs)))
+    wid = mvs[0][1]["v"]; names = [wid] + [a["v"] for a in mvs[0][3]]
+    inner = mvs[0][2].block.id
+    outer = [h for h, body in fn.loops().items() if inner in body and h != inner]
+    if not outer: raise AnalysisBroken("%s: the width measurement is not inside a per-field loop" % fn.name)
+    oh = min(outer, key=lambda h: len(fn.loops()[h])); obody = fn.loops()[oh]
+    fi = w.fi(fn).prepare()
+    out = {}
+    for k in range(1, 9):
+        iv = Intervals(fn, None, fi)
+        for n_ in names: iv.memo[n_] = (k, k)
+        dead = iv.dead_edges()
+        for n_ in names: iv.memo[n_] = (k, k)                 # (dead_edges() clears the memo between its rounds)
+        iv._dead = dead
+        val = None
+        if mode == "store":
+            for i in fn.insts():
+                if i.op != "store" or i.block.id not in obody: continue
+                root, off = fi.ptr(i.ops[1])
+                if root[0] != "alloca" or off.is_const(): continue            # an element of a local array, indexed by the field number
+                live_block = any((p.id, i.block.id) not in dead for p in i.block.preds) or not i.block.preds
+                if not live_block: continue
+                a = iv.ival(i.ops[0])
+                if a[0] == a[1]: val = int(a[0]) if val in (None, int(a[0])) else "several"
+        else:
+            # the accumulator: a header phi of the outer loop whose back value is itself plus constants along the live path
+            def returned(pid):
+                seen = set(); st = [r_.ops[0] for r_ in fn.rets() if r_.ops]
+                while st:
+                    o = st.pop()
+                    if o["k"] != "inst" or o["v"] in seen: continue
+                    seen.add(o["v"])
+                    if o["v"] == pid: return True
+                    x = fn.imap[o["v"]]
+                    if x.op == "phi": st += [c_["v"] for c_ in x["incoming"]]
+                    elif x.op in ("zext", "sext", "trunc"): st.append(x.ops[0])
+                return False
+            for ph in fn.bmap[oh].insts:
+                if ph.op != "phi" or ph["t"].endswith("*") or not returned(ph.id): continue
+                def inc(o, d=0):
+                    if d > 12: return None
+                    if o["k"] != "inst": return None
+                    if o["v"] == ph.id: return 0
+                    x = fn.imap[o["v"]]
+                    if x.op in ("zext", "sext", "trunc"): return inc(x.ops[0], d + 1)
+                    if x.op == "add":
+                        for a_, b_ in ((x.ops[0], x.ops[1]), (x.ops[1], x.ops[0])):
+                            base = inc(a_, d + 1)
+                            if base is None: continue
+                            bv = iv.ival(b_)
+                            if bv[0] == bv[1]: return base + int(bv[0])
+                        return None
+                    if x.op == "phi" and x.block.id in obody and x.block.id != oh:
+                        vals = set()
+                        for c_ in x["incoming"]:
+                            if (c_["b"], x.block.id) in dead: continue
+                            pb = fn.bmap[c_["b"]]
+                            if pb.preds and all((q.id, pb.id) in dead for q in pb.preds): continue       # that predecessor is itself unreachable under the pin
+                            vals.add(inc(c_["v"], d + 1))
+                        return vals.pop() if len(vals) == 1 else None
+                    return None
+                backs = [c_["v"] for c_ in ph["incoming"] if c_["b"] in obody]
+                if len(backs) != 1: continue
+                r = inc(backs[0])
+                if r is not None and r > 0: val = r if val in (None, r) else "several"
+        out[k] = val if isinstance(val, int) else None
+    return out
 
 
 def width_decisions(fn):
@@ -81,12 +160,16 @@ def analyse(mod, run, label):
             run.check(not unexp, "Z1-predictor-term-matched", {"predictor": pred, "encoder": enc},
                       Finding("Z1-size-term-unmatched", pred, enc, "+".join(sorted(fmt_term(t) for t in unexp))[:120],
                               "%s adds %s, which does not correspond to any advance of %s: the predictor is documented as exact" % (pred, ", ".join(sorted(fmt_term(t) for t in unexp)), enc), loc="%s:%s" % (rel(pf.file), pf.line)))
-    # group: the two width-normalisation decision lists are the same
-    g1 = width_decisions(need_fn(mod, "varintGroupSize")); g2 = width_decisions(need_fn(mod, "varintGroupEncode"))
-    k1 = [d for d in g1 if d[1] in (1, 2, 4, 8)]; k2 = [d for d in g2 if d[1] in (1, 2, 4, 8)]
-    if not k1 or not k2: raise AnalysisBroken("varintGroup width decision lists not found")
-    run.check(k1 == k2, "Z1-group-width-decisions-equal", {"size": k1, "encode": k2},
-              Finding("Z1-group-width-decisions-differ", "varintGroupSize", "varintGroupEncode", "decisions", "width normalisation in varintGroupSize %s differs from varintGroupEncode %s" % (k1, k2)))
+    # group codec: for every raw byte width 1..8 the size predictor charges what the encoder keeps as the field's width
+    # (both measure the value with the same width loop; the measured width is pinned to k and the code that normalises it is evaluated)
+    gs = per_width(w, need_fn(mod, "varintGroupSize"), "accumulate"); ge = per_width(w, need_fn(mod, "varintGroupEncode"), "store")
+    for k in range(1, 9):
+        if gs[k] is None or ge[k] is None:
+            run.defer_broken("Z1 group codec: the bytes charged / stored for a %d-byte value could not be evaluated (size: %s, encoder: %s)" % (k, gs[k], ge[k])); continue
+        run.check(gs[k] == ge[k], "Z1-group-width-charged-as-stored", {"raw_width": k, "size_adds": gs[k], "encoder_keeps": ge[k]},
+                  Finding("Z1-group-width-differs", "varintGroupSize", "varintGroupEncode", "width-%d" % k,
+                          "for a field whose value needs %d byte(s) varintGroupSize adds %s but varintGroupEncode stores it in %s byte(s): the predicted size differs from what is written" % (k, gs[k], ge[k]),
+                          loc="src/varintGroup.c", quant=str(k)))
     # ---- Z3: total size polynomials ----
     ntot = 0
     for pred, field, enc, exact in TOTALS:
@@ -114,6 +197,48 @@ def analyse(mod, run, label):
         okz = (not d.t) if exact else d.nonneg_coeffs()
         run.check(okz, "Z3-total-size-agrees", {"predictor": pred, "encoder": enc, "predicted": repr(pp), "written": repr(ep), "relation": "==" if exact else ">="},
                   Finding("Z3-total-size-differs", pred, enc, "total", "%s predicts %r bytes but %s advances its output by %r" % (pred, pp, enc, ep), loc="%s:%s" % (rel(pf.file), pf.line)))
+    # ---- Z6: an encoder that (re)runs the analysis its size predictor is fed from does so on its own arguments, unchanged ----
+    # (varintPFORSize(meta) with meta from varintPFORComputeThreshold(values, count, threshold) bounds varintPFOREncode(values, count,
+    #  threshold) only if the encoder's own analysis sees the same values, count and threshold)
+    nz6 = 0
+    for enc, ana in ENC_ANALYSIS:
+        ef = need_fn(mod, enc); af = need_fn(mod, ana)
+        sites = list(ef.calls(ana))
+        if not sites: raise AnalysisBroken("Z6: %s does not call %s" % (enc, ana))
+        for cs in sites:
+            for k, pn in sorted(af.argnames.items()):
+                ek = ef.param_index(pn)
+                if ek is None or k >= cs["nargs"]: continue
+                if af.params[k]["t"].endswith("*") and not af.params[k]["pointee_const"]: continue          # the metadata out-parameter
+                a = cs.ops[k]
+                for _ in range(4):
+                    if a["k"] == "inst" and ef.imap[a["v"]].op in ("zext", "sext", "trunc", "bitcast"): a = ef.imap[a["v"]].ops[0]
+                nz6 += 1
+                run.check(a["k"] == "arg" and a["v"] == ek, "Z6-encoder-analyses-its-own-arguments", {"encoder": enc, "analysis": ana, "parameter": pn},
+                          Finding("Z6-encoder-analyses-other-arguments", enc, ana, "arg:%s" % pn,
+                                  "%s calls %s with a '%s' that is not the '%s' it was given (a default substituted, a clamp, another variable): the size %s's sibling predicts from the caller's arguments no longer describes what is encoded" % (
+                                      enc, ana, pn, pn, enc), loc=loc(cs)))
+    # ---- Z7: the percentile index of the patched codec is computed without wrapping ----
+    # varintAdaptiveMaxSize (and any caller budgeting exceptions) relies on "at most (100 - threshold)% of the values are exceptions";
+    # that holds only if floor(count * threshold / 100) is the mathematical value.  A product of two parameters formed in a type
+    # narrower than 64 bits wraps for large counts and the "95th percentile" becomes an arbitrary one.
+    nz7 = 0
+    for aname in ("varintPFORComputeThreshold",):
+        af = need_fn(mod, aname); afi = w.fi(af).prepare()
+        def from_param(o, d=0):
+            if o["k"] == "arg": return True
+            if o["k"] != "inst" or d > 4: return False
+            x = af.imap[o["v"]]
+            return x.op in ("zext", "sext", "trunc") and from_param(x.ops[0], d + 1)
+        for i in af.insts():
+            if i.op != "mul" or not from_param(i.ops[0]) or not from_param(i.ops[1]): continue
+            nz7 += 1
+            bits = int(i["t"][1:]) if i["t"][1:].isdigit() else 64
+            wraps = bits < 64 and afi.may_wrap(i)
+            run.check(not wraps, "Z7-percentile-index-does-not-wrap", {"fn": aname, "at": loc(i), "bits": bits},
+                      Finding("Z7-percentile-index-wraps", aname, "thresholdIndex", "mul",
+                              "%s multiplies two of its parameters in %d-bit arithmetic at %s: for large counts the product wraps, the percentile taken is not the one asked for and nearly every value can become an exception (14 bytes each) - more than varintAdaptiveMaxSize budgets" % (aname, bits, loc(i)), loc=loc(i)))
+    if nz7 < 1: raise AnalysisBroken("Z7: no product of parameters found in varintPFORComputeThreshold")
     # ---- Z5: every write of the encoder lies inside the predicted size, one field width at a time ----
     nz5 = 0
     from ..bounds import Bounds as _B5
